@@ -118,6 +118,9 @@ func runC01(c *Ctx) {
 	voteAdmissionRules(c)
 	tallyRules(c)
 	validatorSetRoles(c)
+	// a vote counts for exactly the height, round, type and block its signature covers (C11): with a field left out of
+	// the signed bytes, votes of different rounds add up to a quorum no round ever had
+	voteSignBytesRules(c)
 
 	blockSyncRules(c)
 	// ---- W: who may apply / save -------------------------------------------------------------------
@@ -249,6 +252,29 @@ func validateBlockChecklist(c *Ctx) {
 		G("evidence count <= MaxEvidencePerBlock", Cmp(`^call:len\(call:\(\*types\.Block\)\.Evidence\(block\)\.Evidence\)$`, "<=", `^call:types\.MaxEvidencePerBlock\(state\.ConsensusParams\.Block\.MaxBytes\)#0$`)),
 		G("state.Validators.HasAddress(block.ProposerAddress())", True(`^call:\(\*types\.ValidatorSet\)\.HasAddress\(state\.Validators, call:\(\*types\.Block\)\.ProposerAddress\(block\)\)$`)),
 	)
+	// the verdict cache holds only verdicts reached under the state being applied: it is emptied after the block it was
+	// filled for is applied, not before that block's own validation puts its key back
+	if ap := c.Fn("kai/state/cstate", "BlockExecutor", "ApplyBlock"); ap != nil {
+		vb := CallTo(`^`+blockExT+`\.ValidateBlock$`, "")
+		clear := StoreTo(`^&blockExec\.cache$`)
+		c.Precedes(ap, "ValidateBlock", vb, "empty the verdict cache", clear)
+		c.FollowedBy(ap, "save the new state", CallTo(`cstate\.Store\)\.Save$`, ""), "empty the verdict cache", clear, "return", AnyReturn())
+	}
+	// the block time is the median weighted by the power that signed: the half-way mark is half of the power present in
+	// the commit, not of the whole set (absent signatures would let under a third of the power dictate the time)
+	if mt := c.Fn("kai/state/cstate", "", "MedianTime"); mt != nil {
+		n, ok := 0, true
+		for _, in := range findInstrs(mt, CallTo(`^types/time\.WeightedMedian$`, "")) {
+			n++
+			cc := callCommon(in)
+			a := ""
+			if len(cc.Args) == 2 {
+				a = pathOf(cc.Args[1])
+			}
+			ok = ok && strings.Contains(a, "phi") && re(`GetByAddress\(validators, .*\.ValidatorAddress\)#1\.VotingPower`).MatchString(a) && !strings.Contains(a, "TotalVotingPower")
+		}
+		c.Check("F", fnName(mt)+"/the median's total weight is the sum of the powers of the signatures present", n == 1 && ok, mt.Pos(), n, "")
+	}
 	// the initial-height alternatives are only available at the initial height
 	ifOn := func(cond Cond) SinkSel {
 		return func(in ssa.Instruction) bool {
